@@ -435,72 +435,43 @@ def extract_programs(events):
 
 
 def build_schedule(events, order):
-    """Micro-step schedule for Events/Emitter.v: an actor step is either taking a number from a
-    shared counter or putting one event.  Numbers must be taken in increasing order of the
-    number itself, each take after the actor's previous emission and before the emission that
-    carries it.  Returns the list of actor indices, or None if no such linearisation exists."""
-    idx = {tn: i for i, tn in enumerate(order)}
-    # steps of each actor in program order: ('take', kind, no) | ('emit', event_index)
-    # global constraints: emits in stream order; takes of each kind in number order.
-    sched = []
-    # pending takes sorted per kind
+    """Schedule (list of actor indices) for Events/Emitter.v under which the model emits exactly
+    `events`.  An actor step either takes a number from a shared counter or puts one event.
+    Constraints: puts in stream order; the takes of each counter in the order of the numbers;
+    a take after the actor's previous put and before the put that carries the number.  Takes
+    are performed as late as possible (lazy), which is complete for these constraints.
+    Actors are indexed by trace number (the order in which trace numbers were taken).
+    Returns None if no such schedule exists."""
+    kind_of = {'OnStartTrace': ('t', 'trace_no'), 'OnStartTraceCall': ('c', 'trace_call_no'), 'OnStartPrompt': ('p', 'prompt_no')}
     takes = {'t': [], 'c': [], 'p': []}
-    for i, e in enumerate(events):
-        ty = e['type']
-        if ty == 'OnStartTrace':
-            takes['t'].append((e['trace_no'], i))
-        elif ty == 'OnStartTraceCall':
-            takes['c'].append((e['trace_call_no'], i))
-        elif ty == 'OnStartPrompt':
-            takes['p'].append((e['prompt_no'], i))
-    for k in takes:
-        takes[k].sort()
-    ptr = {'t': 0, 'c': 0, 'p': 0}
-    taken = set()
-    last_emit_of_actor: dict = {}
-    prev_emit_index: dict = {}
-    # for each event i: index of the previous event of the same actor (its take must come after that emit)
+    prev_put = {}
     lastseen: dict = {}
     for i, e in enumerate(events):
-        prev_emit_index[i] = lastseen.get(e['trace_no'], -1)
+        prev_put[i] = lastseen.get(e['trace_no'], -1)
         lastseen[e['trace_no']] = i
-    emitted = -1
-
-    def flush_takes(upto_event):
-        """perform every take that must precede emission `upto_event` and is enabled"""
-        progress = True
-        while progress:
-            progress = False
-            for k in ('t', 'c', 'p'):
-                while ptr[k] < len(takes[k]):
-                    no, ei = takes[k][ptr[k]]
-                    if prev_emit_index[ei] <= emitted:
-                        sched.append(idx[events[ei]['trace_no']])
-                        taken.add(ei)
-                        ptr[k] += 1
-                        progress = True
-                    else:
-                        break
-                    if ei == upto_event:
-                        break
-            if upto_event in taken or events[upto_event]['type'] not in ('OnStartTrace', 'OnStartTraceCall', 'OnStartPrompt'):
-                break
+        if e['type'] in kind_of:
+            k, f = kind_of[e['type']]
+            takes[k].append((e[f], i))
+    for k in takes:
+        takes[k].sort()
+        if [n for n, _ in takes[k]] != list(range(1, len(takes[k]) + 1)):
+            return None             # counters start at 1 and every number taken is eventually put
+    ptr = {'t': 0, 'c': 0, 'p': 0}
+    taken = set()
+    sched = []
     for i, e in enumerate(events):
-        needs_take = e['type'] in ('OnStartTrace', 'OnStartTraceCall', 'OnStartPrompt')
-        if needs_take and i not in taken:
-            # take everything smaller of the same kind first (must be enabled), then this one
-            k = {'OnStartTrace': 't', 'OnStartTraceCall': 'c', 'OnStartPrompt': 'p'}[e['type']]
+        if e['type'] in kind_of:
+            k, _ = kind_of[e['type']]
             while i not in taken:
                 if ptr[k] >= len(takes[k]):
                     return None
-                no, ei = takes[k][ptr[k]]
-                if prev_emit_index[ei] > emitted:
+                _, j = takes[k][ptr[k]]
+                if prev_put[j] >= i:
                     return None
-                sched.append(idx[events[ei]['trace_no']])
-                taken.add(ei)
+                sched.append(events[j]['trace_no'] - 1)
+                taken.add(j)
                 ptr[k] += 1
-        sched.append(idx[e['trace_no']])
-        emitted = i
+        sched.append(e['trace_no'] - 1)
     return sched
 
 
@@ -628,7 +599,7 @@ def _check_streams(ctx, jobs, results, corr: Corr, with_emitter=True):
             if sched is None:
                 n_em_skipped += 1
             else:
-                em_cases.append((r, [progs[t] for t in order], sched, events_term(evs, _SameIntern(it))))
+                em_cases.append((r, [progs[t] for t in sorted(order)], sched, events_term(evs, _SameIntern(it))))
                 em_meta.append(job)
     corr.evaluations += n_streams
     files = {}
